@@ -88,6 +88,7 @@ func main() {
 	sem := make(chan struct{}, 4)
 	var mu sync.Mutex
 	rejected, uncompilable := 0, 0
+	var problems []string
 	totals := map[string]int{}
 	outcomes := map[string]int{}
 	legCalls := map[string]int{}
@@ -107,6 +108,10 @@ func main() {
 			}
 			rejected += len(br.Rejected)
 			uncompilable += len(br.Uncompilable)
+			if len(problems) < 4 {
+				problems = append(problems, br.Rejected...)
+				problems = append(problems, br.Uncompilable...)
+			}
 			if br.Bin == "" {
 				return
 			}
@@ -181,6 +186,9 @@ func main() {
 	run.Set("programs", nProgs)
 	run.Set("programs_rejected_by_the_compiler_(C11)", rejected)
 	run.Set("programs_whose_emitted_go_does_not_compile_(C11)", uncompilable)
+	if rejected+uncompilable > 0 {
+		run.Violation("C03:core-program-not-compilable", fmt.Sprintf("%d core programs were rejected by the compiler and the emitted Go of %d does not build: %s", rejected, uncompilable, strings.Join(problems, " | ")), map[string]interface{}{"problems": problems})
+	}
 	os.Exit(run.Finish())
 }
 
